@@ -22,8 +22,11 @@ def run_property(pid, tier):
     mod = importlib.import_module('props.' + pid.lower())
     ctx = Ctx(pid, prog, info, tier)
     mod.run(ctx)
-    if tier == 'thorough' and hasattr(mod, 'run_thorough'):
-        mod.run_thorough(ctx)
+    if tier == 'thorough':
+        if hasattr(mod, 'run_thorough'):
+            mod.run_thorough(ctx)
+        import thorough
+        thorough.run(ctx)
     return ctx.finish()
 
 
